@@ -59,8 +59,18 @@ def main_for(pid, tier, replay=None):
     for i, s in enumerate(scen, 1):
         s["tid"] = i
     traces = C.pmap("harness.remap_engine", "run_scenario", scen, chunk=300)
-    jr = R.judge(run, traces, [pid])
+    jr = R.judge(run, traces, [pid, "MODEL"])
     by = {t["tid"]: t for t in traces}
+    # design level: the pipeline model against the same predicates (one texel size in the quick tier)
+    mcs = []
+    if pid in ("C01", "C02", "C07", "C11"):
+        for tn, td in (R.TEXELS[tier][:1] if tier == "quick" else R.TEXELS[tier]):
+            mcs.append(R.model_check(run, tn, td, "perturb" if pid == "C01" else "valid", 1 if pid == "C01" else 2, 2, 1 if pid == "C01" else 0, f"MC_Remap_{tn}_{td}"))
+    drift = {}
+    for m in jr["M"]:
+        drift[m[2]] = drift.get(m[2], 0) + 1
+    for m in jr["M"][:5]:
+        print(f"MODEL-DRIFT action={m[2]} trace={m[1]} detail={m[3]}")
     n = C.report(run, pid, jr["V"], by)
     status = {}
     for t in traces:
@@ -68,14 +78,17 @@ def main_for(pid, tier, replay=None):
     rev = sum(1 for t in traces if any(r["k"] == "F" and r["st"] == -1 for s in t["input"] for r in s["rows"]))
     smp = traces[len(traces) // 2]
     cov = {
-        "states": sum(e["model_states"] for e in exports), "transitions": sum(e["model_transitions"] for e in exports),
+        "states": sum(e["model_states"] for e in exports) + sum(m["states"] for m in mcs),
+        "transitions": sum(e["model_transitions"] for e in exports) + sum(m["generated"] for m in mcs),
         "traces_validated_against_impl": jr["judged"], "exhaustive": not sampled,
         "evaluations": len(traces), "distinct_nontrivial": sum(1 for t in traces if sum(len(g["pieces"]) for g in t["map"]) > 1 or t["valid"] == 0 or pid == "C08"),
         "rule": "scenarios = distinct Pretext maps reached by TLC in PretextView.tla (14 hand-picked + seeded random input shapes whose contig and gap "
                 "lengths straddle 1 texel / ErrLen / 3*ErrLen, both namings, floor/ceil texel counts, sub-texel scaffolds present or absent; gestures Cut at "
                 "every texel boundary within Margin+1 bp of a contig boundary, Flip, Move, Split, Swap, Paint; perturbations Drop/Dup/Shift/Ghost), each "
                 "executed by the real BuildAssembly; non-trivial = more than one piece, or perturbed" + ("; sampled (seeded) where a class exceeds its cap" if sampled else ""),
-        "exports": exports, "run_status": status, "scenarios_with_reverse_contigs": rev,
+        "exports": exports, "pipeline_model_checks": mcs, "model_drift": len(jr["M"]), "model_drift_by_action": drift,
+        "model_conformant": len(jr["M"]) == 0, "traces_compared_with_pipeline_model": jr["N"].get("completed_runs", 0) if pid != "C01" else None,
+        "run_status": status, "scenarios_with_reverse_contigs": rev,
         "antecedents": jr["N"],
         "samples": [{k: smp[k] for k in ("tn", "td", "naming", "valid", "input", "map", "status", "out", "stats")}],
         "known_findings_seen": run.known,
